@@ -260,7 +260,7 @@ func (c *completion) complete(args []string) []Completion {
 			rname, n := utf8.DecodeRuneInString(optname)
 			sname := string(rname)
 
-			if opt := s.lookup.shortNames[sname]; opt != nil && opt.canArgument() {
+			if opt := s.lookup.shortNames[sname]; n != 0 && opt != nil && opt.canArgument() {
 				ret = c.completeValue(opt.value, prefix+sname, optname[n:])
 			} else {
 				ret = c.completeNamesForShortPrefix(s, prefix, optname)
